@@ -144,3 +144,117 @@ Example C11_bytes_example :
     exists b0, enc c11_deep = Some b0 /\ Bytes.bytes_contains (B """bto"":") b0 = true /\
     exists z, on_walk a z /\ z <> a /\ match z with IObj true KActivity _ => True | _ => False end.
 Proof. exact clean_bytes_example. Qed.
+
+(* ================================================================ b43: on the gob wire (the gob encoder)
+   The analogue of C11_bytes* for the gob encoder: GobEncode / T.GobEncode / MarshalBinary write a struct as a
+   property map (name -> nested bytes); the model of that encoder is Model/Gob.v (genc, gmap) over the write
+   tables regenerated from map<T>Properties (Gen/GobW.v) - the model C03's correspondence compares with the
+   real bytes, and harness/c11gob.go compares with GobEncode after Clean.
+   [wire_no_private w]: w is no bytes at all, or a property map with no entry under "bto" and none under "bcc".
+   Positions are named on the value, as for JSON ([on_walk]): a property map does not say which of its entries
+   were embedded by pointer, and bto stays, by the property's own list, off the walk.
+   The one hypothesis on the struct itself, [private_fields_shaped]: its bto and bcc hold item lists, the Go
+   type of the two fields (a model value could hold a string there; no Go value can). *)
+From AP.Model Require Import Layout Dispatch GobTables Gob GobCheck GobWhole GobInst GobClean.
+From AP.Proofs Require GobCleanP.
+
+(* table obligation, evaluated on the gob write tables of this run: in the write table of every struct kind, the
+   only statements writing under "bto" ("bcc") write the field Bto (BCC) behind `len(..) > 0`; nothing unrecognised *)
+Theorem C11_gob_private_bad_none : gob_private_bad genv = [].      (* diagnosis first: the error names the statements *)
+Proof. vm_compute. reflexivity. Qed.
+
+Theorem C11_gob_private_tables : gob_private_ok genv = true /\ gob_private_bad genv = [].
+Proof. vm_compute. split; reflexivity. Qed.
+
+(* generic over the gob write tables: for every value x and every struct z embedded by pointer that the
+   property's walk reaches from Clean(x) - x itself included, at any depth, through lists:
+   (1) what gobEncodeItem writes for z (when the body of gobEncodeItem has its generated statement groups:
+   enc_item_ok, part of C03's table condition), (2) the property map of z under the write table of ANY struct
+   kind (gobEncodeItem picks the table by z's type name), (3) what T.GobEncode / MarshalBinary write for z *)
+Theorem C11_gob_generic : forall E, gob_private_ok E = true ->
+  forall x z, on_walk (strip x) z ->
+  forall k fs, z = IObj true k fs -> is_link_kind k = false -> private_fields_shaped fs = true ->
+  (enc_item_ok E = true -> wire_no_private (genc E z)) /\
+  (forall k', aget k_bto (fst (gmap E (wtable E k') (pre_fields E fs))) = None /\
+              aget k_bcc (fst (gmap E (wtable E k') (pre_fields E fs))) = None) /\
+  (forall k', wire_no_private (genc_k E k' fs)).
+Proof. exact GobCleanP.clean_gob_walk. Qed.
+
+(* with the generated walks and the generated gob write tables *)
+Theorem C11_gob_enc_item_condition : enc_item_ok genv = true.
+Proof. vm_compute. reflexivity. Qed.
+
+Theorem C11_gob : forall x a z,
+  clean_m x = Ok a -> on_walk a z ->
+  forall k fs, z = IObj true k fs -> is_link_kind k = false -> private_fields_shaped fs = true ->
+  wire_no_private (genc genv z) /\ (forall k', wire_no_private (genc_k genv k' fs)).
+Proof.
+  intros x a z Hc Hw k fs Hz L Hs. rewrite C11_refines_m in Hc. injection Hc as <-.
+  destruct (GobCleanP.clean_gob_walk genv (proj1 C11_gob_private_tables) x z Hw k fs Hz L Hs) as (H1 & _ & H3).
+  split; [exact (H1 C11_gob_enc_item_condition)|exact H3].
+Qed.
+
+(* the value itself, through the package-level encoder *)
+Theorem C11_gob_top : forall k fs a,
+  clean_m (IObj true k fs) = Ok a -> is_link_kind k = false -> private_fields_shaped fs = true ->
+  wire_no_private (genc genv a).
+Proof.
+  intros k fs a Hc L Hs. rewrite C11_refines_m in Hc. injection Hc as <-.
+  destruct (C11_frame k fs L) as (fs' & Hst & _ & Hget & _).
+  assert (Hs' : private_fields_shaped fs' = true).
+  { unfold private_fields_shaped, holds_items in *. rewrite !Hget.
+    apply andb_true_iff in Hs. destruct Hs as [H1 H2]. apply andb_true_iff. split.
+    - destruct (getf F_Bto fs) as [[i|[l|]| | | | | | | | | | |]|]; try discriminate H1; reflexivity.
+    - destruct (getf F_BCC fs) as [[i|[l|]| | | | | | | | | | |]|]; try discriminate H2; reflexivity. }
+  destruct (GobCleanP.clean_gob_walk genv (proj1 C11_gob_private_tables) (IObj true k fs) (strip (IObj true k fs)) (ow_here _)
+              k fs' Hst L Hs') as (H1 & _ & _). exact (H1 C11_gob_enc_item_condition).
+Qed.
+
+(* the condition is about the GUARD: with `x.Bto != nil` instead of `len(x.Bto) > 0` a truncated, non-nil list is
+   written, and the condition says so *)
+Example C11_gob_guard_matters :
+  gob_private_entry_ok (GW F_Bto k_bto (B "gobEncodeItems") F_Bto GLenGt0 true []) = true /\
+  gob_private_entry_ok (GW F_Bto k_bto (B "gobEncodeItems") F_Bto GNeNil true []) = false /\
+  gob_private_entry_ok (GW F_To k_bto (B "gobEncodeItems") F_To GLenGt0 true []) = false /\
+  gob_private_entry_ok (GWUnrecognised [] []) = false.
+Proof. vm_compute. repeat split; reflexivity. Qed.
+
+(* non-vacuity: the deep example; before Clean the gob property map of the value has a "bto" entry, after Clean
+   neither the value nor the Like activity three levels down the walk has one *)
+Example C11_gob_example :
+  wire_no_privateb (genc genv c11_deep) = false /\
+  exists a, clean_m c11_deep = Ok a /\ wire_no_privateb (genc genv a) = true /\ genc genv a <> WEmpty /\
+    exists z k fs, on_walk a z /\ z <> a /\ z = IObj true k fs /\ k = KActivity /\ private_fields_shaped fs = true /\
+                   wire_no_privateb (genc genv z) = true /\ genc genv z <> WEmpty.
+Proof.
+  split; [vm_compute; reflexivity|].
+  exists (strip c11_deep). split; [apply C11_refines_m|]. split; [vm_compute; reflexivity|]. split; [vm_compute; discriminate|].
+  eexists. eexists. eexists. split.
+  - (* tag list -> second entry -> attachment -> the Like activity *)
+    vm_compute.
+    eapply (ow_field_list _ _ F_Tag); [reflexivity|reflexivity|right; right; right; right; left; reflexivity|right; left; reflexivity|].
+    eapply (ow_field _ _ F_Attachment); [reflexivity|reflexivity|right; left; reflexivity|]. apply ow_here.
+  - split; [vm_compute; discriminate|]. split; [reflexivity|]. split; [reflexivity|].
+    split; [vm_compute; reflexivity|]. split; [vm_compute; reflexivity|vm_compute; discriminate].
+Qed.
+
+(* ---- the tree before fix 08cabbf: mapObjectProperties wrote bto / bcc whenever the slice was not nil; Clean leaves
+   an empty, non-nil slice, so the gob form of a cleaned value still had the two entries (holding empty lists) *)
+Definition gobw_funcs_private_pinned :=
+  edit_w (B "mapObjectProperties")
+    (fun e => match e with
+              | GW f k c gf GLenGt0 fl p => if bytes_eqb k k_bto || bytes_eqb k k_bcc then [GW f k c gf GNeNil fl p] else [e]
+              | _ => [e]
+              end) (ge_wfuncs genv).
+Definition genv_private_pinned : gob_env := set_wfuncs genv gobw_funcs_private_pinned.
+
+Theorem C11_gob_pinned_refuted :
+  gob_private_ok genv_private_pinned = false /\
+  exists x a, clean_m x = Ok a /\ wire_no_privateb (genc genv_private_pinned a) = false /\ wire_no_privateb (genc genv a) = true /\
+              match a with IObj _ _ fs => getf F_Bto fs = Some (FItems (Some [])) | _ => False end.
+Proof.
+  split; [vm_compute; reflexivity|].
+  exists (IObj true KObject [(F_ID, FStr (B "https://example.com/1")); (F_Type, FStr (B "Note"));
+                             (F_Bto, FItems (Some [IIri false (B "https://example.com/secret")]))]).
+  eexists. split; [apply C11_refines_m|]. vm_compute. repeat split; reflexivity.
+Qed.
